@@ -31,15 +31,29 @@ META = {
             "well-formed body, and BFS over all histories of a 13-request alphabet (depth 5 quick / 7 "
             "thorough, merged on handle tables + file-system projection): exactly one response, same "
             "id, type allowed for the request, strictly well-formed, STATUS!=OK for invalid handles and "
-            "unsupported operations, next request still answered.  Client: all programs of <=3 (quick) / "
+            "unsupported operations, next request still answered; raising application: for every "
+            "well-formed request, every server-interface / handle callback the request reaches x its "
+            "k-th call (k<=3) x {OSError, RuntimeError, EOFError} raised instead of a return value.  "
+            "Client: all programs of <=3 (quick) / "
             "<=4 (thorough) steps over {pipelined write small / 101 chunks, stat, listdir, read and "
             "prefetch+read on a second file, close}; every call must return under every explored "
             "timing of the server's answers (deviation bound 1; thorough: 2 for programs of <= 3 steps "
-            "without the 101-chunk write and for 2-step programs not combining it with prefetch).",
+            "without the 101-chunk write and for 2-step programs not combining it with prefetch).  "
+            "Bounded transport (flow control): the same client over a pair whose sends block while the "
+            "peer has >= N unconsumed bytes - all programs of <=2 (quick) / <=3 (thorough) steps over "
+            "{prefetch+read all, readv, read, stat} with N=1 in both directions and over {prefetch, "
+            "read, readv, 8 pipelined writes, stat, close} with N=1 for requests / 4096 for responses, "
+            "every thread schedule within deviation bound 1 (thorough: 2 for single-step programs); a "
+            "state in which every thread waits "
+            "(send window, lock, recv) is a hang.",
     "note": "server half single-threaded through the real start_subsystem loop; client half: an explicit "
             "'server catches up now' choice before every step and at every recv_ready() poll of "
             "SFTPFile._write, plus full thread-schedule branching (delay bounded) during the prefetch+read "
-            "step; MAX_REQUEST_SIZE scaled to 4 bytes; _async_response's busy-wait gets a fair lock",
+            "step; MAX_REQUEST_SIZE scaled to 4 bytes; _async_response's busy-wait gets a fair lock; "
+            "bounded transport: a blocked send is a scheduler block, an admitted send delivers all its "
+            "bytes (partial sends are not modelled); the response bound is only tight for programs "
+            "whose every step drains the answers it caused (paramiko drains answers only inside "
+            "read-type calls)",
     "design_ref": "4/C30",
 }
 
@@ -445,6 +459,161 @@ def run_grid_chunk(chunk, acc):
 
 
 # ------------------------------------------------------------------------------------------------
+# part A2: application callbacks that raise
+#
+# The served SFTPServerInterface / SFTPHandle objects are application code: any of their methods may
+# raise instead of returning an error code.  For every well-formed request, the session is first run
+# with a recording application to learn which callbacks the request reaches (and how often), then
+# re-run once per (callback, k-th call, exception type) with exactly that call raising.  The request
+# must still get exactly one well-formed response of an allowed type, and the next request an answer.
+
+CB_FS = ["list_folder", "stat", "lstat", "open", "remove", "rename", "posix_rename", "mkdir", "rmdir",
+         "chattr", "symlink", "readlink", "canonicalize"]
+CB_HANDLE = ["close", "read", "write", "stat", "chattr"]
+CB_EXCS = ["OSError", "RuntimeError", "EOFError"]
+CB_MAX_K = 3
+
+
+def cb_exception(name):
+    if name == "OSError":
+        return OSError(28, "No space left on device")
+    if name == "EOFError":
+        return EOFError()
+    return RuntimeError("application callback failed")
+
+
+class RaisingFS(R.LocalFS):
+    """LocalFS whose callbacks (and those of the handles it opens) are counted while `plan['armed']`
+    and raise at the planned call.  Only outermost callback entries count (LocalFS methods call
+    canonicalize themselves)."""
+
+    def __init__(self, server, root=None, plan=None):
+        R.LocalFS.__init__(self, server, root=root)
+        self.plan = plan
+        self.depth = 0
+        for name in CB_FS:
+            setattr(self, name, self._wrap("fs." + name, getattr(self, name)))
+        plain_open = self.open
+
+        def open_(path, flags, attr):
+            h = plain_open(path, flags, attr)
+            if isinstance(h, R.LocalHandle):
+                for name in CB_HANDLE:
+                    setattr(h, name, self._wrap("handle." + name, getattr(h, name)))
+            return h
+        self.open = open_
+
+    def _wrap(self, label, fn):
+        def call(*a, **kw):
+            plan = self.plan
+            if not plan["armed"] or self.depth:
+                return fn(*a, **kw)
+            n = plan["calls"][label] = plan["calls"].get(label, 0) + 1
+            if plan["target"] == (label, n):
+                plan["raised"] += 1
+                raise cb_exception(plan["exc"])
+            self.depth += 1
+            try:
+                return fn(*a, **kw)
+            finally:
+                self.depth -= 1
+        return call
+
+
+def cb_requests():
+    """(type, tag, body) of every request the raising application is tried on: the well-formed
+    samples plus the requests that reach a callback only in a particular state."""
+    out = list(wellformed_samples())
+    out += [
+        (T.CLOSE, None, R.sstr(b"hx2")),                                   # directory handle
+        (T.READ, None, R.sstr(b"hx1") + R.u64(FILE_LEN) + R.u32(9)),       # at EOF
+        (T.OPEN, None, R.sstr("newfile") + R.u32(2 | 8 | 0x10) + R.attrs(perm=0o600)),
+        (T.EXTENDED, "check-file", R.sstr("check-file") + R.sstr(b"hx1") + R.sstr("sha1")
+         + R.u64(0) + R.u64(0) + R.u32(256)),
+        (T.REALPATH, None, R.sstr(".")),
+    ]
+    return out
+
+
+def run_cb_session(scr, plan, t, body):
+    root = scr.fresh()
+    try:
+        pre = prelude()
+        pre[3] = R.request(T.CLOSE, 4, R.sstr(b"hx3"))
+        packets = pre + [R.request(t, PROBE_ID, body), R.request(T.STAT, TRAIL_ID, R.sstr("f"))]
+
+        def budget(i):
+            plan["armed"] = (i == 4)
+            return SPIN_BUDGET
+        return R.run_session(root, packets, budget, si_class=RaisingFS, si_kwargs={"plan": plan})
+    finally:
+        plan["armed"] = False
+        scr.drop(root)
+
+
+def judge_cb(acc, j, t, tag, body, target, exc, ses, plan):
+    name = T.req_name(t, tag)
+    label = {"type": t, "tag": tag, "callback": target[0], "call": target[1], "raises": exc}
+    replay = {"part": "callback", "request": j, "target": list(target), "exc": exc}
+    cls = "callback-raises"
+    spun = ses.spin_msg if ses.spin_at == 5 else None
+    resp = judge(acc, label, t, tag, None, ses.responses[5], ses.leftover[5], spun, replay, cls)
+    if resp is not None:
+        judge_semantics(acc, label, t, tag, None, resp, PROBE_ID, replay, cls)
+    acc.nt(("callback", name, target[0], min(target[1], 2), exc, summarize(resp)))
+    if spun:
+        return resp
+    tr = ses.responses[6]
+    ok = False
+    if len(tr) == 1 and not ses.leftover[6]:
+        try:
+            p = T.parse_response(*tr[0])
+            ok = p["id"] == TRAIL_ID and p["type"] in (T.ATTRS, T.STATUS)
+        except T.Malformed:
+            ok = False
+    if not ok:
+        acc.violation("next-request-not-answered-after:%s:%s" % (name, cls),
+                      {"request": label, "trailing_stat_responses": tr, "loop_returned": ses.loop_returned},
+                      replay)
+    return resp
+
+
+def run_cb_request(scr, acc, j, only=None):
+    t, tag, body = cb_requests()[j]
+    plan = {"armed": False, "calls": {}, "target": None, "exc": None, "raised": 0}
+    run_cb_session(scr, plan, t, body)
+    acc.ev()
+    reached = dict(plan["calls"])
+    acc.count("callback_requests")
+    for label in sorted(reached):
+        for k in range(1, min(reached[label], CB_MAX_K) + 1):
+            for exc in CB_EXCS:
+                if only is not None and only != ((label, k), exc):
+                    continue
+                plan = {"armed": False, "calls": {}, "target": (label, k), "exc": exc, "raised": 0}
+                ses = run_cb_session(scr, plan, t, body)
+                acc.ev()
+                if plan["raised"] != 1:
+                    raise RuntimeError("C30 callback harness: planned raise %r did not happen" % (plan,))
+                acc.count("callback_raise_positions")
+                resp = judge_cb(acc, j, t, tag, body, (label, k), exc, ses, plan)
+                if label in ("handle.close", "handle.read") and k == 1 and exc == "OSError" \
+                        and len(acc.samples) < 2:
+                    acc.sample({"part": "callback", "request": T.req_name(t, tag), "callback": label,
+                                "raises": exc, "response": summarize(resp)})
+    return reached
+
+
+def run_cb_chunk(chunk, acc):
+    scr = Scratch()
+    try:
+        for j in chunk:
+            run_cb_request(scr, acc, j)
+    finally:
+        scr.close()
+
+
+# ------------------------------------------------------------------------------------------------
 # part B: BFS over request histories
 
 ALPHABET = [
@@ -827,6 +996,193 @@ def client_half(ck, tier):
 
 
 # ------------------------------------------------------------------------------------------------
+# client half, part 2: the same client over a *bounded* transport (flow control)
+#
+# A real channel couples the two directions: a request can only be sent once the server has drained
+# earlier requests, the server can only answer once the client has drained earlier answers.  The
+# unbounded stand-in above never blocks a send, so "thread A waits in send() for thread B to read,
+# B waits for something A holds" cannot happen there.  Here every send is a scheduler block while the
+# peer has >= N unconsumed bytes (sftp_raw.bound_sends); N = 1 is the tightest coupling (one packet in
+# the pipe, one in the receiver's hands).
+#
+# What the client is entitled to (paramiko's design, not judged here): answers are only drained by a
+# thread that is inside a read-type call, so the response direction must be able to hold the answers
+# of everything the application leaves outstanding (un-read prefetches, pipelined writes).  Hence two
+# configurations: TIGHT (1, 1) for programs whose every step drains all answers it caused before it
+# returns, HALF (1, 4096) - requests throttled, responses of the whole program fit - for all programs.
+
+FLOW_FILE_LEN = 32            # 8 prefetch requests of CHUNK bytes
+FLOW_TIGHT = (1, 1)
+FLOW_HALF = (1, 4096)
+FLOW_STEPS_TIGHT = ["prd", "rv", "rd", "stat"]
+FLOW_STEPS_HALF = ["pf", "rd", "rv", "w8", "stat", "close"]
+FLOW_RV = [(0, 4), (6, 12), (20, 4), (28, 4)]   # 6 requests of <= CHUNK bytes
+FLOW_WINDOWS = {"tight": FLOW_TIGHT, "half": FLOW_HALF}
+
+
+def flow_bytes():
+    return core.filler(FLOW_FILE_LEN, 31)
+
+
+def flow_step(client, files, step, i):
+    if step in ("pf", "prd", "rd", "rv"):
+        b = files.get("b")
+        if b is None:
+            b = files["b"] = client.open("big", "r")
+            b._prefetch_lock = R.FairLock()   # fair scheduling for _async_response's busy-wait
+    if step in ("pf", "prd"):
+        if not files.get("b_prefetched"):
+            files["b_prefetched"] = True
+            b.prefetch()
+        if step == "prd":
+            while b.read(FLOW_FILE_LEN):
+                pass
+    elif step == "rd":
+        b.read(3 * CHUNK)
+    elif step == "rv":
+        list(b.readv(list(FLOW_RV)))
+    elif step == "w8":
+        files["f"].write(core.filler(CHUNK * 8, 300 + i))
+    elif step == "stat":
+        client.stat("f")
+    elif step == "close":
+        files["f"].close()
+    else:
+        raise ValueError(step)
+
+
+def make_flow_body(prog, window, base, info):
+    def body(s):
+        info.clear()
+        info.update(done=[], at=None, srv_error=None)
+        root = tempfile.mkdtemp(prefix="x", dir=base)
+        shutil.rmtree(root)
+        mkfs_client(root)
+        with open(os.path.join(root, "big"), "wb") as fh:
+            fh.write(flow_bytes())
+        csock, ssock = R.sched_pair(window=window)
+        srv = SFTPServer(ssock, "sftp", None, R.LocalFS, root=root)
+
+        def serve():
+            try:
+                srv.start_subsystem("sftp", ssock.get_transport(), ssock)
+            finally:
+                srv.finish_subsystem()
+
+        th = vthreading.Thread(target=serve, name="sftp-server")
+        th.start()
+        old = SFTPFile.MAX_REQUEST_SIZE
+        SFTPFile.MAX_REQUEST_SIZE = CHUNK
+        files = {}
+        try:
+            client = SFTPClient(csock)
+            f = client.open("f", "w")
+            f.set_pipelined(True)
+            files["f"] = f
+            s.branching = True
+            for i, step in enumerate(prog):
+                info["at"] = i
+                try:
+                    flow_step(client, files, step, i)
+                    info["done"].append("ok")
+                except Exception as e:  # the call returned by raising: not a hang
+                    info["done"].append(type(e).__name__)
+            s.branching = False
+            info["at"] = None
+            return list(info["done"])
+        finally:
+            s.branching = False
+            SFTPFile.MAX_REQUEST_SIZE = old
+            rec = th._vt_rec
+            if rec is not None and rec.done and isinstance(rec.obj, Exception):
+                info["srv_error"] = repr(rec.obj)
+            for k, fo in list(files.items()):
+                if hasattr(fo, "_closed"):
+                    fo._closed = True
+            shutil.rmtree(root, ignore_errors=True)
+    return body
+
+
+def flow_hang_key(site):
+    return "client-blocks-forever:%s:bounded-transport" % site
+
+
+def flow_programs(tier):
+    n = 2 if tier == "quick" else 3
+    out = [("tight", list(p)) for p in enum.sequences(FLOW_STEPS_TIGHT, n, 1)]
+    out += [("half", list(p)) for p in enum.sequences(FLOW_STEPS_HALF, n, 1)]
+    return out
+
+
+def run_flow_chunk(item, acc):
+    tier, progs = item
+    base = tempfile.mkdtemp(prefix="c30f-", dir="/dev/shm")
+    try:
+        for wname, prog in progs:
+            bound = 2 if tier != "quick" and len(prog) == 1 else 1
+            info = {}
+            body = make_flow_body(prog, FLOW_WINDOWS[wname], base, info)
+
+            def on_exec(ex, prog=prog, info=info, wname=wname):
+                acc.ev()
+                if info.get("srv_error"):
+                    raise RuntimeError("C30 flow harness: server thread died: %s" % info["srv_error"])
+                if ex.outcome == "ok":
+                    blocked = sum(1 for _, why in ex.trace if why in ("request-send-window",
+                                                                      "response-send-window"))
+                    if blocked:
+                        acc.count("flow_executions_with_a_blocked_send")
+                        acc.nt(("flow", wname, tuple(prog), tuple(ex.choices)))
+                    return
+                replay = {"part": "flow", "prog": prog, "window": wname, "choices": ex.choices}
+                if ex.outcome in ("deadlock", "livelock"):
+                    at = info.get("at")
+                    site = hang_site(ex.error)
+                    acc.violation(flow_hang_key(site),
+                                  {"program": prog, "window_c2s_s2c": list(FLOW_WINDOWS[wname]),
+                                   "hung_in_step": [at, prog[at] if at is not None else "?"],
+                                   "outcome": ex.outcome, "blocked": ex.deadlock_info,
+                                   "choices": ex.choices}, replay)
+                else:
+                    raise RuntimeError("C30 flow harness: unexpected outcome %s %r for %r"
+                                       % (ex.outcome, ex.error, prog))
+
+            cap = 3000 if tier == "quick" else 20000
+            res = explore.explore(body, bound, "delay", cap=cap, on_exec=on_exec,
+                                  sched_kw={"record_trace": True})
+            acc.count("flow_programs")
+            acc.count("flow_schedules", res.executions)
+            if res.capped:
+                acc.note("flow: cap of %d schedules hit for program %r (%s)" % (cap, prog, wname))
+            if len(acc.samples) < 1 and prog == ["prd", "stat"]:
+                acc.sample({"part": "flow", "program": prog, "window_c2s_s2c": list(FLOW_WINDOWS[wname]),
+                            "schedules": res.executions})
+    finally:
+        shutil.rmtree(base, ignore_errors=True)
+
+
+def flow_half(ck, tier):
+    progs = flow_programs(tier)
+    progs.sort(key=lambda wp: (-len(wp[1]), wp[0], wp[1]))
+    items = [(tier, progs[i::16]) for i in range(16) if progs[i::16]] if tier == "quick" else \
+            [(tier, progs[i:i + 2]) for i in range(0, len(progs), 2)]
+    acc = core.pmap(items, run_flow_chunk)
+    acc.samples = acc.samples[:1]
+    ck.merge(acc)
+    if any("flow: cap of" in n for n in acc.notes):
+        ck.cap_hit("flow schedule cap per program")
+    ck.extra["flow_bound"] = {
+        "windows_c2s_s2c_bytes": {k: list(v) for k, v in FLOW_WINDOWS.items()},
+        "steps_tight": FLOW_STEPS_TIGHT, "steps_half": FLOW_STEPS_HALF,
+        "max_program_length": 2 if tier == "quick" else 3,
+        "delay_bound": "1" if tier == "quick" else "2 for single-step programs, else 1",
+        "programs": acc.counters.get("flow_programs", 0),
+        "schedules": acc.counters.get("flow_schedules", 0),
+        "schedules_in_which_a_send_blocked": acc.counters.get("flow_executions_with_a_blocked_send", 0),
+        "prefetch_requests_per_file": FLOW_FILE_LEN // CHUNK}
+
+
+# ------------------------------------------------------------------------------------------------
 # main
 
 
@@ -836,6 +1192,9 @@ def server_half(ck, tier):
     grid = [x for x in acc.samples if x.get("part") == "grid"][:2]
     acc.samples = grid + [x for x in acc.samples if x.get("part") == "truncation"][:1]
     ck.merge(acc)
+    acc1 = core.pmap(enum.chunks(list(range(len(cb_requests()))), 4), run_cb_chunk)
+    acc1.samples = acc1.samples[:1]
+    ck.merge(acc1)
     depth = 5 if tier == "quick" else 7
     plen = 1 if tier == "quick" else 2      # BFS is partitioned by the first plen requests
     parts = [(tier, (), plen)] + [(tier, pre, depth - plen)
@@ -846,6 +1205,9 @@ def server_half(ck, tier):
     ck.extra["server_bound"] = {
         "grid_requests": acc.counters.get("grid_requests", 0),
         "truncated_requests": acc.counters.get("truncated_requests", 0),
+        "callback_requests": acc1.counters.get("callback_requests", 0),
+        "callback_raise_positions": acc1.counters.get("callback_raise_positions", 0),
+        "callback_exceptions": CB_EXCS,
         "bfs_alphabet": [a[0] for a in ALPHABET],
         "bfs_depth": depth,
         "bfs_note": "BFS partitioned by the first %d request(s) (one partition per work item); states "
@@ -863,13 +1225,19 @@ def main(tier):
         "kind, handle class, path class, answer type/status) for the grid and distinct (request, "
         "handle validity, answer, canonical server state) for BFS transitions; client: one execution = "
         "(program, choice list); nontrivial = distinct (program, recv_ready() answers, choices) in which "
-        "recv_ready() was polled or a non-default choice was taken",
+        "recv_ready() was polled or a non-default choice was taken; raising application: one session "
+        "per (request, callback, k-th call, exception type), nontrivial = distinct (request kind, "
+        "callback, min(k,2), exception, answer); bounded transport: one execution = (window config, "
+        "program, choice list), nontrivial = distinct ones in which at least one send blocked on the window",
         ["server driven through start_subsystem over a fake channel (no SSH transport, no threads)",
          "SFTPServerInterface = local-directory stub adapted from tests/_stub_sftp.py",
-         "request ids are arbitrary 32-bit values chosen by the harness"])
+         "request ids are arbitrary 32-bit values chosen by the harness",
+         "bounded transport: the response direction holds the answers of everything the application "
+         "leaves outstanding without reading (tight bound only for self-draining programs)"])
     server_half(ck, tier)
     if os.environ.get('C30_SKIP_CLIENT') != '1':
         client_half(ck, tier)
+    flow_half(ck, tier)
     return ck.finish()
 
 
@@ -891,9 +1259,28 @@ def replay(rec):
             print("main thread waits in:", hang_site(ex.error))
             return 1 if rec["key"] == hang_key(r["prog"], info.get("at"), hang_site(ex.error)) else 0
         return 0
+    if r["part"] == "flow":
+        base = tempfile.mkdtemp(prefix="c30f-", dir="/dev/shm")
+        try:
+            info = {}
+            ex = explore.replay(make_flow_body(r["prog"], FLOW_WINDOWS[r["window"]], base, info),
+                                r["choices"], "delay", {"record_trace": True})
+        finally:
+            shutil.rmtree(base, ignore_errors=True)
+        print("program:", r["prog"], "window (c2s, s2c):", FLOW_WINDOWS[r["window"]])
+        print("steps completed:", info.get("done"))
+        print("outcome:", ex.outcome, "| blocked threads:", ex.deadlock_info)
+        if ex.outcome in ("deadlock", "livelock"):
+            print("main thread waits in:", hang_site(ex.error))
+            return 1 if rec["key"] == flow_hang_key(hang_site(ex.error)) else 0
+        return 0
     scr = Scratch()
     try:
-        if r["part"] == "probe":
+        if r["part"] == "callback":
+            t, tag, body = cb_requests()[r["request"]]
+            print("request", T.req_name(t, tag), "callback", r["target"], "raises", r["exc"])
+            run_cb_request(scr, acc, r["request"], only=(tuple(r["target"]), r["exc"]))
+        elif r["part"] == "probe":
             body = bytes.fromhex(r["body"])
             print("request type", r["type"], "body", body)
             run_probe(scr, acc, r["label"], r["type"], r["tag"], r["hc"], None, body_override=body,
